@@ -27,6 +27,7 @@ void vf_replay_assume_fail (const char *file, int line);
 #define VF_FINDING(c, key) do { if (!(c)) vf_replay_assert_fail ("FINDING", key, __FILE__, __LINE__); } while (0)
 #define VF_WITNESS(label) do { } while (0)
 #define __CPROVER_assume(c) VF_ASSUME(c)
+#define __CPROVER_DYNAMIC_OBJECT(p) 1
 #define __CPROVER_assert(c, m) VF_ASSERT(c, m)
 #define VF_DEF_IN(T, name) static inline T vf_##name (void) { return VF_NEXT (T); }
 #else
@@ -51,6 +52,8 @@ VF_DEF_IN (int, int)
 VF_DEF_IN (long, long)
 VF_DEF_IN (_Bool, bool)
 
+/* witness that only exists for shapes where it can be reachable (cond is a compile-time constant) */
+#define VF_WITNESS_IF(cond, label) do { if (cond) VF_WITNESS (label); } while (0)
 /* int in [lo,hi] */
 static inline int vf_range (int lo, int hi) { int v = vf_int (); VF_ASSUME (v >= lo && v <= hi); return v; }
 /* fill a byte buffer with inputs */
